@@ -7,4 +7,4 @@ From KV.proofs Require Import Inv.
 Set Extraction Output Directory ".".
 Extraction "kmodel.ml" astep init arun res_received invb
   mstep minit access_safe mutex_ords_ok
-  sstep sinit safe final_of.
+  sstep sinit safe final_of owner_events claimer_events sinits.
